@@ -376,12 +376,20 @@ def touched_cells(nodes, p0, p1, tau):
     return tmin <= tmax
 
 
-def piece_hugs_plane(p0, p1, nodes, dist=2e-9):
+def piece_hugs_plane(p0, p1, nodes):
     """True if some cell's piece of the segment (coordinates rounded to
     1e-9 m, as emg3d sees them) has positive length and its midpoint lies
-    within `dist` of a node plane the segment is not parallel to."""
+    within a few nm of a node plane without lying in it (the segment may
+    cross that plane at a flat angle or run parallel to it)."""
     r0, r1 = np.round(p0, 9), np.round(p1, 9)
     rn = [np.round(nd, 9) for nd in nodes]
+    M = max(float(np.max(np.abs(nd))) for nd in nodes)
+    dist = 3e-9 + 8*EPS*M
+    for a in range(3):
+        if r1[a] == r0[a]:
+            gap = np.abs(rn[a] - r0[a])
+            if np.any((gap > 0) & (gap <= dist)):
+                return True
     tmin, tmax = slab_intervals(rn, r0, r1, 0.0)
     ok = tmax > tmin
     if not ok.any():
